@@ -967,13 +967,11 @@ def obligations(tier):
     else:
         hist(2, 2, 2)
         hist(2, 1, 3)
-        hist(5, 1, 3)
-        # size 5, two operations: the sequences that start with a move (the others are size-independent bookkeeping)
-        n0 = len(obs)
-        hist(5, 2, 2)
-        obs[n0:] = [o for o in obs[n0:] if o.case["ops"][0][0] == "move"]
+        # cell size 5: one operation on two atoms (three atoms / two operations at size 5 were measured at > 12 min of
+        # solver time per obligation - floor division by 5 over three symbolic points - and are not registered)
+        hist(5, 1, 2)
     for size in (2, 5):
-        for natoms in (2,) if tier == "quick" else (2, 3):
+        for natoms in (2,) if tier == "quick" or size == 5 else (2, 3):
             last = natoms - 1
             for tail in ([], [("move", last)], [("move", 0)]) if tier == "thorough" else ([],):
                 seq = [("add", last)] + tail
@@ -1016,15 +1014,18 @@ META = dict(
         "pdb2pqr.cells.int -> symx truncation-toward-zero on exact reals (module-namespace shim)",
         "Cells.cellmap -> symx AssocMap (association list, key equality decided by the solver) instead of dict",
         "atoms are real pdb2pqr.structures.Atom objects with symbolic x,y,z",
+        "call-site obligations (debump-scan, hydrogen-site, carboxylic-site, flip-site): routines.cells -> recorder of (atom object -> coordinates at add_cell); keys are computed by the real add_cell on probes only when registered and current coordinates are not the same terms; Residue.rotate_tetrahedral's quat.qchichange -> periodic abstraction (a full turn restores the terms, any other cumulative angle gives fresh symbolic positions; the real function selects the movers); score_dihedral_angle / find_residue_conflicts / get_closest_atom / util.distance / get_pair_energy / is_hbond / get_hbond_angle / is_carboxylic_hbond -> answers driven by lazy symbolic selectors (which iteration wins, neighbour present, which position / candidate better, which attempt succeeds)",
+        "partner-search / bump-search: cells -> stub that returns the partner when the symbolic distance is below the cell size the real set-up configured and returns / withholds it beyond (two runs); util.distance -> the symbolic distance; optimize_hydrogens stopped after the detection loop",
         "debump-site: debump.quat.qchichange -> returns arbitrary fresh symbolic positions (the rotation itself is C04/C15's subject); pdb2pqr.utilities.np -> symx numpy subset (exact list arithmetic) so the real util.subtract/add run on proxies; utilities.dihedral -> constant (its value is irrelevant to the cell map)",
     ],
     bounds=[
         "coordinates: unbounded reals (no range restriction)",
         "cell sizes: quick {2,5}; thorough key lemma 1..10, query 1,2,3,5,10",
-        "histories: assign_cells on natoms-1 atoms (+1 outside), then every sequence of nops operations from {add, remove, move=remove/write/add with fresh symbolic coordinates, readd} x atom (operation sequences enumerated, coordinates symbolic), then a query from every present atom; quick: 2 atoms x 1 op; thorough: 2 atoms x 2 ops and 3 atoms x 1 op",
+        "histories: assign_cells on natoms-1 atoms (+1 outside), then every sequence of nops operations from {add, remove, move=remove/write/add with fresh symbolic coordinates, readd} x atom (operation sequences enumerated, coordinates symbolic), then a query from every present atom; quick: 2 atoms x 1 op at size 2; thorough: 2 atoms x 2 ops and 3 atoms x 1 op at size 2, 2 atoms x 1 op at size 5 (larger size-5 histories: > 12 min of solver time each, not registered); plus histories in which the outside atom carries a stale key from an earlier map when it is added",
+        "call sites: SER/CYS/LYS/ARG scans of 2-4 steps x 1-2 rounds; Water from five pre-states (bare, H1, H1+LP1, LP1+LP2, H1+LP1+LP2), Alcoholic from three, each with and without complete(); try_both undo from two pre-states each; Carboxylic: ASH (thorough also GLH), 0-2 attempts then complete + cleanup; all on one SER/ASH/HOH fixture",
     ],
     outside=[
-        "the ~40 call sites in pdb2pqr/hydrogens/* that are supposed to bracket coordinate writes with remove_cell/add_cell (see DESIGN C14 out); the debump call site (Debump.set_dihedral_angle) IS covered, on SER/CYS chi1 (one moved heavy atom; the per-atom protocol is a loop body)",
+        "call sites not covered: Carboxylic.rename's removal of a pre-existing *2 hydrogen; the optimize.py try_* helpers are reached only as far as Water/Alcoholic finalize/try_both call them (they create, place, then bin). Covered call sites: Debump.set_dihedral_angle, the whole Debump.debump_residue scan (scan length / rounds reduced by patching DEBUMP_ANGLE_STEPS / DEBUMP_ANGLE_TEST_COUNT: the loop body is the same for every step), Flip, Water/Alcoholic finalize + complete + try_both undo, the Carboxylic optimisation",
         "floating-point: coordinates are exact reals; add_cell only compares with 0 and truncates, both exact on doubles",
         "histories longer than the stated bound",
     ],
@@ -1035,8 +1036,8 @@ META = dict(
 )
 
 MANIFEST = dict(
-    text='For C14: Cells.add_cell/remove_cell/get_near_cells/assign_cells for ALL real coordinates (unbounded), cell sizes 2 and 5 (1..10 thorough), against a Euclidean brute-force oracle, over every add/remove/move/readd sequence up to the stated length; plus the debump call site (real Debump.set_dihedral_angle with the rotation result abstracted to arbitrary new coordinates) keeping the cell map consistent with the coordinates.',
-    note='Trusted: z3, the symx int()-truncation, numpy-subset and association-list dict models (validated against CPython each run). Coordinates are exact reals (add_cell only compares with 0 and truncates, exact on doubles). Histories bounded (quick: 2 atoms x 1 op; thorough: 2 atoms x 2 ops, 3 atoms x 1 op). The hydrogens/* call sites of the remove/add protocol are outside the claim.',
+    text='For C14: Cells.add_cell/remove_cell/get_near_cells/assign_cells for ALL real coordinates (unbounded), cell sizes 2 and 5 (1..10 thorough), against a Euclidean brute-force oracle, over every add/remove/move/readd sequence up to the stated length; plus the call sites that are supposed to keep the map in step with coordinate writes and atom deletions - Debump.set_dihedral_angle, the Debump.debump_residue scan, Flip, Water/Alcoholic finalize/complete/try_both, the Carboxylic optimisation (rotations abstracted to arbitrary positions, outcomes of geometric tests symbolic selectors): on return and at every neighbour query each atom is binned where it is and no deleted atom is listed; the distance cut-offs of the callers lie within the cell size the real set-up configures (relational two-run obligation); a map rebuilt between passes lists exactly the live atoms.',
+    note='Trusted: z3, the symx int()-truncation, numpy-subset and association-list dict models (validated against CPython each run). Coordinates are exact reals (add_cell only compares with 0 and truncates, exact on doubles). Histories bounded (quick: 2 atoms x 1 op; thorough: 2 atoms x 2 ops, 3 atoms x 1 op at cell size 2; 2 atoms x 1 op at size 5). Call-site obligations abstract the geometry (any position may result from a rotation; any outcome of a geometric test), so they over-approximate the reachable states of each site: a violation there is replayed concretely before it is reported.',
     technique='symbolic execution of real code on z3 Real/Int proxies (symx) + SMT verdict per path',
     design='DESIGN.md section 3 C14',
 )
